@@ -1,3 +1,5 @@
+import re
+
 import astload
 from core import Fn, Target, VC
 import hooks
@@ -9,35 +11,99 @@ TYPES = [(r'LEorLT$|^std::variant<nano::LE_t, nano::LT_t>$', 'struct nv_lelt'),
          (r'(^|::)pair_range_t<long\b|iprange_t$', 'struct nv_iprange'), (r'(^|::)pair_range_t<double\b|fprange_t$', 'struct nv_fprange'),
          (r'(^|::)parameter_t::enum_t$', 'struct nv_enum'), (r'(^|::)storage_t$|^std::variant<std::monostate, ', 'struct nv_storage'),
          (r'^(nano::)?parameter_t$', 'struct nv_parameter'),
-         (r'^(std::)?tuple<int, int>$', 'struct nv_tup_i32'), (r'^(std::)?tuple<long, long>$', 'struct nv_tup_i64'),
-         (r'^(std::)?tuple<double, double>$', 'struct nv_tup_f64'),
+         (r'^(std::)?tuple<int, int>$', 'struct nv_tup_i32'), (r'^(std::)?tuple<long, long>$|^(std::)?tuple<long long, long long>$', 'struct nv_tup_i64'),
+         (r'^(std::)?tuple<double, double>$', 'struct nv_tup_f64'), (r'^(std::)?tuple<float, float>$', 'struct nv_tup_f32'),
          (r'^(nano::string_t|std::string|std::basic_string<char>)$', 'struct nv_str'),
          (r'__normal_iterator<std::basic_string<char> \*, std::vector', 'struct nv_str*'),
          (r'^(nano::strings_t|std::vector<std::basic_string<char>.*)$', 'struct nv_strs'),
          (r'^(std::)?tuple<std::basic_string<char>, std::basic_string<char>>$', 'struct nv_tup_str'),
          (r'std::tuple_element<[01], const std::tuple<std::basic_string<char>, std::basic_string<char>>>::type', 'struct nv_str')]
 
-# ::update instantiations of src/parameter.cpp: C name <- template arguments
-RANGE = [('update_ir_i64', ['long', 'long']), ('update_ir_ll', ['long', 'long long']), ('update_ir_f64', ['long', 'double']),
-         ('update_fr_f64', ['double', 'double']), ('update_fr_i64', ['double', 'long'])]
-PAIR = [('update_ip_i64', ['long', 'long', 'long']), ('update_ip_ll', ['long', 'long long', 'long long']),
-        ('update_ip_i32', ['long', 'int', 'int']), ('update_ip_f64', ['long', 'double', 'double']),
-        ('update_fp_f64', ['double', 'double', 'double']), ('update_fp_i64', ['double', 'long', 'long']),
-        ('update_fp_i32', ['double', 'int', 'int'])]
-STORAGE = [('update_st_i64', 'long', False), ('update_st_f64', 'double', False),
-           ('update_st_t32', 'int', True), ('update_st_t64', 'long', True), ('update_st_tf', 'double', True)]
+# ----------------------------------------------------------------------------- following the call sites
+# The record-level ::update templates, ::check and nano::isfinite are instantiated by their call sites; which
+# instantiations exist is read from clang on every run (astload.instantiations / astload.callees), so a change that makes a
+# call site pass another type is checked against the same contracts instead of ending in an extraction error.
+SUF = {'long': 'i64', 'long long': 'll', 'int': 'i32', 'double': 'f64', 'float': 'f32'}
 
 
-def fnty(ts, *tv):
-    """regex on the callee's function type: record of tscalar `ts`, value type(s) `tv`"""
-    rec = 'pair_range_t' if len(tv) == 2 else 'range_t'
-    return r'^update\|parameter_t::%s<%s> &\(const nano::string_t &, parameter_t::%s<%s> &, %s\)' % (
-        rec, ts, rec, ts, ', '.join(tv))
+def _fn_params(fnty):
+    """parameter types of clang's function-type spelling 'R (A, B, C) noexcept'"""
+    i = fnty.index('(')
+    depth, j = 0, i
+    for j in range(i, len(fnty)):
+        depth += fnty[j] in '(<'
+        depth -= fnty[j] in ')>'
+        if depth == 0 and fnty[j] == ')':
+            break
+    return [x.strip() for x in hooks.split_top(fnty[i + 1:j])]
 
 
-CALLS = [(r'^check\|.*long, long\)', 'check_i64'), (r'^check\|.*double, double\)', 'check_f64'),
-         (r'^isfinite\|bool \(const long\)', 'isfinite_i64'), (r'^isfinite\|bool \(const double\)', 'isfinite_f64'),
-         (r'^isfinite\|bool \(double\)', 'nv_std_isfinite'),
+def update_cname(d):
+    """C name (= contract name) of a record-level ::update instantiation, None for the other overloads"""
+    ta, pt = astload.template_args(d), astload.param_types(d)
+    if len(pt) < 3 or 'range_t<' not in pt[1]:
+        return None
+    pair = 'pair_range_t<' in pt[1]
+    if ta[0] not in ('long', 'double') or any(t not in SUF for t in ta[1:]) or len(ta) != (3 if pair else 2) or (pair and ta[1] != ta[2]):
+        raise astload.ExtractionError(f'::update instantiated for {ta}: no contract is written for this combination of types')
+    return f"update_{'i' if ta[0] == 'long' else 'f'}{'p' if pair else 'r'}_{SUF[ta[1]]}"
+
+
+def update_insts():
+    """{function type (clang spelling): (C name, template arguments)} of the record-level ::update instantiations that exist"""
+    out = {}
+    for d in astload.instantiations(TU, 'update', 'update'):
+        c = update_cname(d)
+        if c:
+            out[d['type']['qualType']] = (c, astload.template_args(d))
+    if not out:
+        raise astload.ExtractionError('no record-level ::update instantiation found in src/parameter.cpp')
+    return out
+
+
+def storage_insts():
+    """{function type: (C name, definition)} of the storage-level ::update(name, storage_t&, number | tuple) instantiations"""
+    out = {}
+    for d in astload.instantiations(TU, 'update', 'update'):
+        ta, pt = astload.template_args(d), astload.param_types(d)
+        if len(pt) != 3 or 'storage_t' not in pt[1]:
+            continue
+        if ta[0] not in SUF:
+            raise astload.ExtractionError(f'::update(storage) instantiated for {ta}: no contract is written for this type')
+        out[d['type']['qualType']] = ('update_st_' + ('t' if 'tuple' in pt[2] else '') + SUF[ta[0]], d)
+    if not out:
+        raise astload.ExtractionError('no storage-level ::update instantiation found in src/parameter.cpp')
+    return out
+
+
+def helper_cname(name, fnty):
+    ps = [re.sub(r'\bconst\b', '', x).strip() for x in _fn_params(fnty)]
+    if name == 'check':
+        ps = ps[1:]
+    if any(x not in SUF for x in ps):
+        raise astload.ExtractionError(f'{name} instantiated for {ps}: no C name for this combination of types')
+    return name + '_' + '_'.join(SUF[x] for x in ps)
+
+
+def key_rx(name, fnty):
+    return r'^' + re.escape(name) + r'\|' + re.escape(fnty) + r'(\||$)'
+
+
+def base_calls():
+    """call mappings that depend on the instantiations present: every ::update, ::check, nano::isfinite by its exact type"""
+    calls = []
+    for fnty, (c, ta) in update_insts().items():
+        calls.append((key_rx('update', fnty), c + '!^'))
+    for fnty, (c, d) in storage_insts().items():
+        calls.append((key_rx('update', fnty), c + '!'))
+    for d in astload.instantiations(TU, 'check', 'check'):
+        calls.append((key_rx('check', d['type']['qualType']), helper_cname('check', d['type']['qualType'])))
+    for d in astload.instantiations(TU, 'nano::isfinite', 'isfinite'):
+        calls.append((key_rx('isfinite', d['type']['qualType']), helper_cname('isfinite', d['type']['qualType'])))
+    return calls
+
+
+STATIC_CALLS = [(r'^isfinite\|bool \(double\)', 'nv_std_isfinite'),
          (r'^get\|__tuple_element_t<0UL', '{0}._0'), (r'^get\|__tuple_element_t<1UL', '{0}._1'),
          (r'^move\|', '{0}'),     # std::move on the value models (strings are ids, records are plain structs): a copy
          (r'^find\|', 'nv_find_str({0}, {1}, {&2})'), (r'^operator==\|.*__normal_iterator<std::basic_string<char> \*', '({0} == {1})'),
@@ -47,42 +113,72 @@ CALLS = [(r'^check\|.*long, long\)', 'check_i64'), (r'^check\|.*double, double\)
          (r'^stoll\|', 'nv_stoll({&0})!^'), (r'^stod\|', 'nv_stod({&0})!^'), (r'^split_pair\|', 'nv_split_pair({&0})')]
 STRS = r'std::vector<std::(__cxx11::)?basic_string<char>'
 MEMBERS = [(r'^begin\|' + STRS, '{*self}.p'), (r'^end\|' + STRS, '({*self}.p + {*self}.n)')]
-CALLS += [(fnty(ta[0], *ta[1:]), cname + '!^') for cname, ta in RANGE + PAIR]
-CALLS += [(r'^update\|void \(const nano::string_t &, parameter_t::storage_t &, %s\)' % re_, cname + '!') for cname, re_ in [
-    ('update_st_i64', 'long'), ('update_st_f64', 'double'), ('update_st_t32', r'std::tuple<int, int>'),
-    ('update_st_t64', r'std::tuple<long, long>'), ('update_st_tf', r'std::tuple<double, double>')]]
 HOOKS = [hooks.variant_expr_hook()]
-COMMON = dict(types=TYPES, calls=CALLS, members=MEMBERS, hooks=HOOKS, stmt_hooks=[hooks.variant_visit_hook()], uf_float=False)
+
+
+_common = {}
+
+
+def common():
+    """Fn keyword arguments shared by every extraction; the call table needs clang (the instantiations present), so it is
+    built on first use, inside build()"""
+    if not _common:
+        _common.update(types=TYPES, calls=STATIC_CALLS + base_calls(), members=MEMBERS, hooks=HOOKS,
+                       stmt_hooks=[hooks.variant_visit_hook()], uf_float=False)
+    return _common
 
 
 def targs(*want):
     return lambda d: astload.template_args(d) == list(want)
 
 
-def helpers():
-    return [Fn('check_i64', TU, 'check', select=targs('long'), **COMMON),
-            Fn('check_f64', TU, 'check', select=targs('double'), **COMMON),
-            Fn('isfinite_i64', TU, 'isfinite', flt='nano::isfinite', select=targs('long', '-1'), **COMMON),
-            Fn('isfinite_f64', TU, 'isfinite', flt='nano::isfinite', select=targs('double', '-1'), **COMMON)]
+def by_type(fnty):
+    return lambda d: d['type']['qualType'] == fnty
 
 
-def upd(cname, ta):
-    return Fn(cname, TU, 'update', select=targs(*ta), **COMMON)
+def helpers_of(decls):
+    """the ::check / nano::isfinite instantiations the given definitions call (extracted and inlined, no contract in between)"""
+    out, seen = [], set()
+    for d in decls:
+        for name, flt in (('check', 'check'), ('isfinite', 'nano::isfinite')):
+            for fnty in astload.callees(d, name):
+                if name == 'isfinite' and re.fullmatch(r'bool \((float|double|long double)\)', fnty):
+                    continue     # std::isfinite (the repaired guard): exact C equivalent, not a libnano function
+                c = helper_cname(name, fnty)
+                if c not in seen:
+                    seen.add(c)
+                    out.append(Fn(c, TU, name, flt=flt, select=by_type(fnty), **common()))
+    return out
 
 
-def upd_storage(cname, tv, tup):
-    sel = lambda d: astload.template_args(d) == [tv, '-1'] and ('tuple' in astload.param_types(d)[2]) == tup
-    return Fn(cname, TU, 'update', select=sel, **COMMON)
+def upd_fns(fntys):
+    """extracted record-level updates for the given function types, with the helpers they call"""
+    insts = update_insts()
+    fns, decls = [], []
+    for t in fntys:
+        if t not in insts:
+            continue      # another ::update overload (enum, storage)
+        c, ta = insts[t]
+        if c in [f.cname for f in fns]:
+            continue
+        fns.append(Fn(c, TU, 'update', select=by_type(t), **common()))
+        decls.append(astload.find_definition(TU, 'update', 'update', by_type(t)))
+    return fns, decls
+
+
+def upd_storage(fnty):
+    c, d = storage_insts()[fnty]
+    return Fn(c, TU, 'update', select=by_type(fnty), **common()), d
 
 
 def upd_enum():
-    return Fn('update_enum', TU, 'update', select=lambda d: 'enum_t' in astload.param_types(d)[1], **COMMON)
+    return Fn('update_enum', TU, 'update', select=lambda d: 'enum_t' in astload.param_types(d)[1], **common())
 
 
 def ctor(cname, pt):
     want = ['nano::string_t', 'nano::parameter_t::' + pt if pt else 'nano::string_t']
     return Fn(cname, TU, 'parameter_t', flt='nano::parameter_t::parameter_t', select=lambda d: astload.param_types(d) == want,
-              self_struct='struct nv_parameter', **COMMON)
+              self_struct='struct nv_parameter', **common())
 
 
 DRV = 'drivers/inst_param.cpp'
@@ -92,13 +188,13 @@ def reader(cname, name, tv):
     """parameter_t::value<tv>() / value_pair<tv>() (header templates, instantiated by the driver) with the record-level
     value<tv>() accessors they dispatch to"""
     sfx = {'long': 'i64', 'double': 'f64'}[tv]
-    c = dict(COMMON)
+    c = dict(common())
     c['members'] = MEMBERS + [(r'^logical_error\|', '@throw')] + [
         (r'^value\|nano::parameter_t::%s<%s' % (rec, ts), f'{nm}_{sfx}')
         for rec, ts, nm in [('range_t', 'long', 'range_value_ir'), ('range_t', 'double', 'range_value_fr'),
                             ('pair_range_t', 'long', 'pair_value_ip'), ('pair_range_t', 'double', 'pair_value_fp')]]
     tup = 'struct nv_tup_' + sfx
-    c['calls'] = CALLS + [(r'^make_tuple\|', '(%s){{0}, {1}}' % tup)]
+    c['calls'] = common()['calls'] + [(r'^make_tuple\|', '(%s){{0}, {1}}' % tup)]
     fns = [Fn(cname, DRV, name, flt='nano::parameter_t::' + name, select=targs(tv, '-1'), self_struct='struct nv_parameter',
               ret=(tup if name == 'value_pair' else None), **c)]
     if name == 'value':
@@ -116,7 +212,7 @@ PV = r'std::vector<nano::parameter_t'
 
 
 def conf_fns():
-    c = dict(COMMON)
+    c = dict(common())
     c['types'] = TYPES + [(r'^(std::)?(string_view|basic_string_view<char>)$', 'struct nv_str'),
                           (r'^(nano::)?parameters_t$|^' + PV, 'struct nv_params'),
                           (r'__normal_iterator<\s*nano::parameter_t \*', 'struct nv_parameter*'),
@@ -127,7 +223,7 @@ def conf_fns():
                               (r'^emplace_back\|' + PV, 'nv_params_emplace_back({self}, {&0})')]
     # std::find_if(first, last, lambda): the lambda argument is not translated here; it is extracted as find_param_pred
     # (it captures `name`, the enclosing function's parameter) and called by the stub
-    c['calls'] = CALLS + [(r'^find_if\|', 'nv_find_if_param({0}, {1}, name)'), (r'^operator==\|.*basic_string_view', '({0}.id == {1}.id)'),
+    c['calls'] = common()['calls'] + [(r'^find_if\|', 'nv_find_if_param({0}, {1}, name)'), (r'^operator==\|.*basic_string_view', '({0}.id == {1}.id)'),
                           (r'^operator!=\|.*basic_string_view', '({0}.id != {1}.id)'),
                           (r'^operator!=\|.*__normal_iterator<\s*nano::parameter_t \*', '({0} != {1})'),
                           (r'^operator==\|.*__normal_iterator<\s*nano::parameter_t \*', '({0} == {1})'),
@@ -156,7 +252,7 @@ def conf_fns():
 
 def method(cname, name, ptypes=None):
     sel = (lambda d: astload.param_types(d) == ptypes) if ptypes else None
-    return Fn(cname, TU, name, flt='nano::parameter_t::' + name, select=sel, self_struct='struct nv_parameter', **COMMON)
+    return Fn(cname, TU, name, flt='nano::parameter_t::' + name, select=sel, self_struct='struct nv_parameter', **common())
 
 
 def T(name, fns, solver='cadical', **kw):
@@ -165,60 +261,88 @@ def T(name, fns, solver='cadical', **kw):
     return Target(name, fns, H, cbmc_flags=(['--sat-solver', solver] if solver else []), **kw)
 
 
-def build(tier):
-    targets = [T('check_i64', [helpers()[0]]), T('check_f64', [helpers()[1]])]
-    # T1: the check-then-assign templates; ::check and nano::isfinite are extracted and inlined (no contract in between)
-    for cname, ta in RANGE + PAIR:
-        targets.append(T(cname, [upd(cname, ta)] + helpers()))
-    # T2: the std::visit dispatch over the storage variant; the record-level updates are replaced by the contracts
-    # proved above (so the double -> int64 cast is reported once, where it is)
-    callee = {'update_st_i64': ['update_ir_i64', 'update_fr_i64'], 'update_st_f64': ['update_ir_f64', 'update_fr_f64'],
-              'update_st_t32': ['update_ip_i32', 'update_fp_i32'], 'update_st_t64': ['update_ip_i64', 'update_fp_i64'],
-              'update_st_tf': ['update_ip_f64', 'update_fp_f64']}
-    table = dict(RANGE + PAIR)
+def check_targets():
+    """every ::check instantiation the source contains, against the comparison the flag denotes"""
+    out = []
+    for d in astload.instantiations(TU, 'check', 'check'):
+        t = d['type']['qualType']
+        c = helper_cname('check', t)
+        out.append(T(c, [Fn(c, TU, 'check', select=by_type(t), **common())]))
+    if not out:
+        raise astload.ExtractionError('no ::check instantiation found in src/parameter.cpp')
+    return out
 
-    def st_fns(cname):
-        tv, tup = [(b, c) for a, b, c in STORAGE if a == cname][0]
-        return [upd_storage(cname, tv, tup)] + [upd(c, table[c]) for c in callee[cname]] + helpers()
-    for cname, tv, tup in STORAGE:
-        targets.append(T(cname, st_fns(cname), replace=callee[cname]))
-    # parameter_t::seti / setd / operator=(tuple): the storage-level update replaced by the contract proved just above
-    for cname, name, pt, st in [('parameter_seti', 'seti', None, 'update_st_i64'), ('parameter_setd', 'setd', None, 'update_st_f64'),
-                                ('parameter_assign_t32', 'operator=', ['std::tuple<int32_t, int32_t>'], 'update_st_t32'),
-                                ('parameter_assign_t64', 'operator=', ['std::tuple<int64_t, int64_t>'], 'update_st_t64'),
-                                ('parameter_assign_tf', 'operator=', ['std::tuple<scalar_t, scalar_t>'], 'update_st_tf')]:
-        targets.append(T(cname, [method(cname, name, pt)] + st_fns(st), replace=callee[st] + [st]))
+
+def with_helpers(fns, decls):
+    return fns + helpers_of(decls)
+
+
+def assign_str_fns(cname='parameter_assign_str'):
+    """operator=(string) with the record-level updates its visitors really call (read from the AST), everything inlined"""
+    sel = lambda d: astload.param_types(d) == ['nano::string_t']
+    d = astload.find_definition(TU, 'nano::parameter_t::operator=', 'operator=', sel)
+    ufns, udecls = upd_fns(astload.callees(d, 'update'))
+    return [method(cname, 'operator=', ['nano::string_t']), upd_enum()] + with_helpers(ufns, udecls)
+
+
+def build(tier):
+    targets = check_targets()
+    # T1: the check-then-assign templates, every instantiation present; the ::check / nano::isfinite instantiations each one
+    # calls are extracted and inlined (no contract in between)
+    insts = update_insts()
+    for fnty, (cname, ta) in sorted(insts.items(), key=lambda kv: kv[1][0]):
+        fns, decls = upd_fns([fnty])
+        targets.append(T(cname, with_helpers(fns, decls)))
+    # T2: the std::visit dispatch over the storage variant; the record-level updates it calls (read from the AST) are
+    # replaced by the contracts proved above
+    for fnty, (cname, d) in sorted(storage_insts().items(), key=lambda kv: kv[1][0]):
+        f, d = upd_storage(fnty)
+        ufns, udecls = upd_fns(astload.callees(d, 'update'))
+        targets.append(T(cname, [f] + with_helpers(ufns, udecls), replace=[u.cname for u in ufns]))
+    # parameter_t::seti / setd / operator=(tuple): the storage-level update each one really calls (read from the AST) is
+    # replaced by its contract proved just above
+    for cname, name, pt in [('parameter_seti', 'seti', None), ('parameter_setd', 'setd', None),
+                            ('parameter_assign_t32', 'operator=', ['std::tuple<int32_t, int32_t>']),
+                            ('parameter_assign_t64', 'operator=', ['std::tuple<int64_t, int64_t>']),
+                            ('parameter_assign_tf', 'operator=', ['std::tuple<scalar_t, scalar_t>'])]:
+        mf = method(cname, name, pt)
+        md = astload.find_definition(TU, mf.flt, name, mf.select, mf.kinds)
+        fns, rep = [mf], []
+        for fnty in astload.callees(md, 'update'):
+            if fnty not in storage_insts():
+                raise astload.ExtractionError(f'{cname} calls ::update of type {fnty}: not a storage-level update')
+            f, d = upd_storage(fnty)
+            ufns, udecls = upd_fns(astload.callees(d, 'update'))
+            fns += [f] + with_helpers(ufns, udecls)
+            rep += [u.cname for u in ufns] + [f.cname]
+        targets.append(T(cname, fns, replace=rep))
     # T3: enum update and the six constructors (everything inlined down to ::check)
     targets.append(T('update_enum', [upd_enum()]))
-    for cname, pt, deps in [('parameter_ctor_ir', 'irange_t', ['update_ir_i64']), ('parameter_ctor_fr', 'frange_t', ['update_fr_f64']),
-                            ('parameter_ctor_ip', 'iprange_t', ['update_ip_i64']), ('parameter_ctor_fp', 'fprange_t', ['update_fp_f64']),
-                            ('parameter_ctor_enum', 'enum_t', []), ('parameter_ctor_str', None, [])]:
-        fns = [ctor(cname, pt)] + [upd(c, table[c]) for c in deps] + ([upd_enum()] if pt == 'enum_t' else []) + helpers()
-        targets.append(T(cname, fns))
+    for cname, pt in [('parameter_ctor_ir', 'irange_t'), ('parameter_ctor_fr', 'frange_t'), ('parameter_ctor_ip', 'iprange_t'),
+                      ('parameter_ctor_fp', 'fprange_t'), ('parameter_ctor_enum', 'enum_t'), ('parameter_ctor_str', None)]:
+        cf = ctor(cname, pt)
+        cd = astload.find_definition(TU, 'nano::parameter_t::parameter_t', 'parameter_t', cf.select, cf.kinds)
+        ufns, udecls = upd_fns(astload.callees(cd, 'update'))
+        targets.append(T(cname, [cf] + ([upd_enum()] if pt == 'enum_t' else []) + with_helpers(ufns, udecls)))
     # T4: parameter_t::operator=(string): seven visitors, parsing by assumed STL functions, everything else inlined
-    for cname in ['parameter_assign_str']:
-        targets.append(T(cname, [method(cname, 'operator=', ['nano::string_t']), upd_enum()] +
-                         [upd(c, table[c]) for c in ('update_ir_ll', 'update_fr_f64', 'update_ip_ll', 'update_fp_f64')] + helpers(),
-                         solver=None))
+    targets.append(T('parameter_assign_str', assign_str_fns(), solver=None))
     # T5: readers (header templates through the instantiation-only driver)
     for cname, name, tv in [('value_i64', 'value', 'long'), ('value_f64', 'value', 'double'),
                             ('pair_i64', 'value_pair', 'long'), ('pair_f64', 'value_pair', 'double')]:
         targets.append(T(cname, reader(cname, name, tv)))
-    c = dict(COMMON)
+    c = dict(common())
     c['members'] = MEMBERS + [(r'^logical_error\|', '@throw')]
     targets.append(T('value_str', [Fn('value_str', DRV, 'value', flt='nano::parameter_t::value', select=targs('std::basic_string<char>', '-1'),
                                       self_struct='struct nv_parameter', **c)]))
     # parameter_t::operator=(tenum) (header template, instantiated for nano::solver_status by the driver): operator=(string)
     # replaced by the contract proved above
-    c = dict(COMMON)
+    c = dict(common())
     c['types'] = TYPES + [(r'^nano::solver_status$', 'int32_t')]
     c['members'] = MEMBERS + [(r'^logical_error\|', '@throw'), (r'^operator=\|nano::parameter_t', 'parameter_assign_str!')]
-    c['calls'] = CALLS + [(r'^scat\|nano::string_t \(const nano::solver_status &\)', 'nv_scat_enum((int64_t){0})')]
+    c['calls'] = common()['calls'] + [(r'^scat\|nano::string_t \(const nano::solver_status &\)', 'nv_scat_enum((int64_t){0})')]
     fe = Fn('parameter_assign_enum', DRV, 'operator=', flt='nano::parameter_t::operator=', select=targs('nano::solver_status', '-1'),
             self_struct='struct nv_parameter', **c)
-    targets.append(T('parameter_assign_enum', [fe, method('parameter_assign_str', 'operator=', ['nano::string_t']), upd_enum()] +
-                     [upd(cn, table[cn]) for cn in ('update_ir_ll', 'update_fr_f64', 'update_ip_ll', 'update_fp_f64')] + helpers(),
-                     replace=['parameter_assign_str'], solver=None))
+    targets.append(T('parameter_assign_enum', [fe] + assign_str_fns(), replace=['parameter_assign_str'], solver=None))
     # T6: configurable_t lookups and registration (std::find_if / emplace_back by assumed contract, the predicate lambda,
     # parameter_t::name() and ::find_param inlined everywhere)
     for top, deps in [('find_param', []), ('find_param_c', []), ('parameter', ['find_param']), ('parameter_c', ['find_param_c']),
@@ -226,11 +350,13 @@ def build(tier):
         f = conf_fns()
         fns = [f[top]] + [f[d] for d in deps] + [f['pred_c' if top.endswith('_c') else 'pred'], f['name']]
         targets.append(T(fns[0].cname, fns, solver=None))
+    targets += clone_targets()
     return {
         'targets': targets, 'vcs': [],
         'decided': [
             '::check<int64|double>: returns min <= v for LE_t and min < v for LT_t (which variant index is LE_t is read from clang\'s type)',
-            '::update(range_t / pair_range_t) for all 12 instantiations of src/parameter.cpp: with c = (tscalar)x, c in domain <=> accepted; '
+            '::update(range_t / pair_range_t) for EVERY instantiation present in src/parameter.cpp (read from clang on each run, with the '
+            '::check / nano::isfinite instantiations each one calls): with c = (tscalar)x, c in domain <=> accepted; '
             'accepted => stored value(s) == c, nothing thrown, returns the record; rejected => throws and BOTH halves / the value are unchanged; '
             'NaN / inf rejected for real parameters; min, max and the comparison flags never change; the domain predicate is established by every '
             'non-throwing update and preserved by every update',
@@ -246,6 +372,12 @@ def build(tier):
             'satisfies its domain predicate (out-of-domain default <=> the constructor throws)',
             'parameter_t::value<int64|double>(), value_pair<int64|double>(), value<string>(): return the stored value converted to the requested kind; '
             'reads of a parameter of another kind throw; nothing is modified',
+            'clones of objects with owned sub-objects (ghost: identity of a parameter configuration): solver_t copy constructor (what every '
+            'solver clone() runs) and its four line-search setters; ml::params_t copy constructor, copy assignment and twelve setters; '
+            'functional_t constructors and copy assignment; wlearner::clone (loop contract), gboost_model_t / gboost::result_t copy '
+            'constructor and assignment, gboost_model_t::prototypes(const&): the copy has the same id and equal parameters, EVERY owned '
+            'sub-object is an independent clone (same id, equal parameters, another object) of the source\'s, the source is untouched; '
+            'setters by id install the factory default of that id, an unknown id / null owner throws and nothing changes',
             '::find_param (both overloads), configurable_t::parameter / parameter_if (both overloads): returns the first parameter with that name; '
             'absent => null (optional) / throws (mandatory); register_parameter: duplicate name => throws and the list is unchanged, else the list '
             'grows by exactly the given parameter',
@@ -257,6 +389,8 @@ def build(tier):
             'instantiated nano::solver_status (same template)',
             'make_scalar_ / make_integer_ ... (header factories: casts of min / value / max, then the constructors proved here)',
             'which strings std::stoll / std::stod accept and what ::split_pair returns (uninterpreted; DESIGN C19 X)',
+            'solver_t::make_lsearch (clones, then overwrites two parameters), ml::params_t::logger, the default constructors, the move '
+            'operations (= default), behavioural equality of a clone (trajectories) beyond equal configuration',
             'parameter_t::read / write (serialisation; read() stores the record from the stream WITHOUT the domain check -- see final report), '
             'operator==, clone equality and factory ids (DESIGN C19 X)',
         ],
@@ -275,6 +409,15 @@ def build(tier):
             'scat(enumerator) is a deterministic function of the enumerator (uninterpreted)',
             'value<int64>() / value_pair<int64>() on a REAL parameter: the stored double is representable as int64 (the reader\'s own cast; a real '
             'parameter\'s domain may exceed it -- required as a precondition of those two readers only)',
+            'T::clone() of the leaf classes (lsearch0_t, lsearchk_t, tuner_t, splitter_t, function_t, wlearner_t; solver_t as seen from '
+            'ml::params_t): a NEW object with the same registered id and equal parameters (their copy constructors are the compiler\'s, or '
+            'solver_t\'s under contract); factory_t::get(id): a fresh clone of the prototype registered under id, or null (which ids exist '
+            'and the prototypes\' configurations are uninterpreted functions of the id)',
+            'implicit copy constructors / assignments of the bases (typed_t, configurable_t, learner_t) and of plain members (tensors, '
+            'logger_t) copy their value; std::unique_ptr move-assignment / std::move transfer the pointer; std::vector::reserve + '
+            'emplace_back within the reserved capacity append in order',
+            'functional_t copy constructor / assignment: the source owns a function (a functional built from a null rfunction_t&& would '
+            'be dereferenced: caller obligation, see final report)',
             'parameter lists have at most 10^6 entries and enum domains at most 10^6 strings (only to keep n * sizeof inside size_t)',
         ],
         'trusted': ['the C models of the records (specs/C19/param.h) have the member names and scalar types of include/nano/parameter.h '
@@ -301,6 +444,54 @@ def _num(v, integer):
     return {'+NaN': 'nan', '-NaN': 'nan', 'NaN': 'nan', '+INFINITY': 'inf', '-INFINITY': '-inf', 'INFINITY': 'inf'}.get(s, s)
 
 
+# string assignments: the verifier's counterexample lives in the uninterpreted parsing functions, so it names no string; the
+# native scenario assigns a fixed alphabet of numeric strings (boundary values, integers beyond 2^53, fractions, exponents)
+# to real parameters through operator=(string) and compares with the reference model of the driver
+STRING_SCENARIOS = [
+    ('ir', '0', '1', '1', '9223372036854775807', ['7', '9007199254740993', '1234567890123456789', '9223372036854775807', '9223372036854775808', '-1']),
+    ('ir', '-9223372036854775807', '1', '1', '10', ['-9223372036854775807', '-9007199254740993', '10', '11']),
+    ('ir', '0', '0', '1', '10', ['0', '1', '10', '11']),
+    ('fr', '0.0', '0', '1', '1.0', ['0.5', '1', '1.5', '0', '1e-3']),
+    ('ip', '0', '1', '1', '9223372036854775807', ['1', '9007199254740993']),
+    ('fp', '0.0', '1', '1', '1.0', ['0.25', '0.75']),
+]
+
+
+def replay_strings(rp):
+    import os
+    import replaylib
+    out = {'reproduced': False, 'runs': [], 'note': 'fixed alphabet of numeric strings assigned through parameter_t::operator=(string)'}
+    exe = replaylib.build_header_only('replay/C19_replay.cpp', 'C19_replay',
+                                      extra=[os.path.join(replaylib.REPO, 'src', 'parameter.cpp'), '-fsanitize=float-cast-overflow'])
+    for kind, mn, minle, maxle, mx, strings in STRING_SCENARIOS:
+        pair = kind[1] == 'p'
+        for i, x in enumerate(strings):
+            if pair and i + 1 >= len(strings):
+                break
+            args = [kind, 'str', mn, minle, maxle, mx] + (['1', x, strings[i + 1]] if pair else [x])
+            try:
+                rc, so, se = replaylib.run_driver(exe, args)
+            except Exception as e:
+                out['runs'].append({'error': repr(e)})
+                continue
+            if rc == 1:
+                out['reproduced'] = True
+                out['runs'].append({'args': args, 'exit': rc, 'output': so.strip()})
+    return out
+
+
+def replay_clones(mode):
+    """copies of real factory objects whose owned sub-objects carry non-default parameters (the verifier's counterexample is
+    a ghost configuration identity, so it names no object: the native scenario sweeps every registered id)"""
+    import replaylib
+    out = {'reproduced': False, 'runs': [], 'note': 'every registered id, owned sub-objects with non-default parameters, real clone / copy / assignment'}
+    exe = replaylib.build_with_library('replay/C19_clone_replay.cpp', 'C19_clone_replay')
+    rc, so, se = replaylib.run_driver(exe, [mode], timeout=600)
+    out['runs'].append({'args': [mode], 'exit': rc, 'output': so.strip()[-2500:]})
+    out['reproduced'] = rc == 1
+    return out
+
+
 def replay(rp):
     """record-level counterexamples (::update on a range / pair record): the counterexample's domain and assigned
     number(s) are driven through the public API of a real parameter_t (make_integer / make_scalar / ..., operator=)
@@ -309,6 +500,12 @@ def replay(rp):
     import os
     import replaylib
     out = {'reproduced': False, 'runs': []}
+    if rp['target'] in ('parameter_assign_str', 'parameter_assign_enum'):
+        return replay_strings(rp)
+    for prefix, mode in (('solver_', 'solver'), ('mlparams_', 'mlparams'), ('functional_', 'functional'), ('gboost_', 'gboost'),
+                         ('gbresult_', 'gboost'), ('wlearners_', 'gboost')):
+        if rp['target'].startswith(prefix):
+            return replay_clones(mode)
     kt = REPLAY_KIND.get(rp['target'])
     if kt is None:
         out['note'] = 'no native driver for this target: the replay file carries the verifier output only'
@@ -329,7 +526,12 @@ def replay(rp):
             return hit
         mn, mx = _num(last('.m_min'), integer), _num(last('.m_max'), integer)
         le = [last('.m_mincomp.index'), last('.m_maxcomp.index'), last('.m_valcomp.index')]
-        xs = [last('::value1_'), last('::value2_')] if pair else [last('::value_')]
+        # the assigned number(s): the harness parameters after (name, param), whatever the source calls them
+        hp = [k for k in ce if k.startswith('main::') and not k.endswith('_wrapper') and
+              k.split('::')[1] not in ('name', 'param', 'nv_thrown') and not k.split('::')[1].startswith('__')]
+        xs = [ce[k] for k in hp[:2 if pair else 1]]
+        if len(xs) != (2 if pair else 1):
+            continue
         if mn is None or mx is None or any(x is None for x in xs) or le[0] is None or le[1] is None or (pair and le[2] is None):
             continue
         xs = [_num(x, tv != 'f64') for x in xs]
@@ -352,4 +554,144 @@ def replay(rp):
         out['runs'].append({'obligation': fo['id'], 'args': args, 'exit': rc, 'output': so.strip(), 'sanitizer': ub[:2]})
         if rc == 1 or ub:
             out['reproduced'] = True
+    return out
+
+
+# ----------------------------------------------------------------------------- clones of objects with owned sub-objects
+HC = 'specs/C19/clone.h'
+UP = r'^std::unique_ptr<nano::(lsearch0_t|lsearchk_t|tuner_t|solver_t|splitter_t|function_t|wlearner_t)'
+OWNED = r'nano::(lsearch0_t|lsearchk_t|tuner_t|splitter_t|function_t|wlearner_t)'
+CLONE_TYPES = [(UP + r'|^(nano::)?r(lsearch0|lsearchk|tuner|splitter|function|wlearner)_t$', 'struct nv_obj*'),
+               (r'^' + OWNED + r'$', 'struct nv_obj'),
+               (r'^(nano::string_t|std::string|std::basic_string<char>)$|^(std::)?(string_view|basic_string_view<char>)$', 'struct nv_str'),
+               (r'^(nano::)?factory_t<nano::\w+>$', 'struct nv_factory'),
+               (r'^nano::(typed_t|configurable_t)$|^(nano::)?clonable_t<', 'struct nv_base'), (r'^nano::solver_type$', 'uint8_t'), (r'^nano::solver_t$', 'struct nv_solver')]
+CLONE_CALLS = [(r'^move\|', '{0}'),     # std::move of a unique_ptr: the pointer value (the moved-from pointer is not read again)
+               (r'^operator=\|.*unique_ptr', '({0} = {1})'), (r'^operator->\|.*unique_ptr', '{0}'), (r'^operator\*\|.*unique_ptr', '(*{0})'),
+               (r'^all\|factory_t<', 'nv_the_factory'),
+               # implicit copy constructors of the bases (C++ semantics: member-wise), on the flattened model
+               (r'^ctor\|nano::typed_t\|void \(const nano::typed_t &\)', '(self->m_type_id = {0}.m_type_id)'),
+               (r'^ctor\|nano::configurable_t\|void \(const nano::configurable_t &\)', '(self->m_parameters = {0}.m_parameters)'),
+               (r'^ctor\|nano::clonable_t<', '@drop')]
+CLONE_MEMBERS = [(r'^clone\|nano::clonable_t<' + OWNED + r'>|^clone\|' + OWNED + r'\b', 'nv_obj_clone'), (r'^get\|nano::factory_t<', 'nv_factory_get({0})'),
+                 (r'^operator basic_string_view\|', '{*self}'), (r'^operator bool\|std::unique_ptr', '({*self} != NULL)'),
+                 (r'^type_id\|' + OWNED + r'|^type_id\|nano::typed_t', '{*self}.m_type_id'), (r'^get\|std::unique_ptr', '{*self}')]
+
+
+def solver_fns():
+    S = 'src/solver.cpp'
+    ov = hooks.member_overload_hook([
+        (r'^lsearch0\|nano::solver_t\|\(\)\|', 'solver_get_lsearch0'), (r'^lsearchk\|nano::solver_t\|\(\)\|', 'solver_get_lsearchk'),
+        (r'^type\|nano::solver_t\|\(\)\|', 'solver_get_type'),
+        (r'^lsearch0\|nano::solver_t\|\(std::basic_string<char>\)\|', 'solver_lsearch0_id!'),
+        (r'^lsearchk\|nano::solver_t\|\(std::basic_string<char>\)\|', 'solver_lsearchk_id!'),
+        (r'^lsearch0\|nano::solver_t\|\(nano::lsearch0_t\)\|', 'solver_lsearch0_obj!'),
+        (r'^lsearchk\|nano::solver_t\|\(nano::lsearchk_t\)\|', 'solver_lsearchk_obj!')])
+    c = dict(types=CLONE_TYPES, calls=CLONE_CALLS, members=CLONE_MEMBERS, hooks=[ov], self_struct='struct nv_solver', uf_float=False)
+    npar = lambda k, t=None: (lambda d: len(astload.param_types(d)) == k and (t is None or t in astload.param_types(d)[0]))
+    f = {
+        'copy': Fn('solver_copy', S, 'solver_t', flt='nano::solver_t::solver_t', select=lambda d: astload.param_types(d) == ['const nano::solver_t &'], **c),
+        'get0': Fn('solver_get_lsearch0', S, 'lsearch0', flt='nano::solver_t::lsearch0', select=npar(0), **c),
+        'getk': Fn('solver_get_lsearchk', S, 'lsearchk', flt='nano::solver_t::lsearchk', select=npar(0), **c),
+        'gett': Fn('solver_get_type', S, 'type', flt='nano::solver_t::type', select=npar(0), **c),
+        'id0': Fn('solver_lsearch0_id', S, 'lsearch0', flt='nano::solver_t::lsearch0', select=npar(1, 'string_t'), **c),
+        'idk': Fn('solver_lsearchk_id', S, 'lsearchk', flt='nano::solver_t::lsearchk', select=npar(1, 'string_t'), **c),
+        'obj0': Fn('solver_lsearch0_obj', S, 'lsearch0', flt='nano::solver_t::lsearch0', select=npar(1, 'lsearch0_t'), **c),
+        'objk': Fn('solver_lsearchk_obj', S, 'lsearchk', flt='nano::solver_t::lsearchk', select=npar(1, 'lsearchk_t'), **c),
+    }
+    return f
+
+
+def mlparams_fns():
+    S = 'src/machine/params.cpp'
+    UPT = r'std::unique_ptr<nano::%s_t[^)]*'
+    table = []
+    for m in ('tuner', 'solver', 'splitter'):
+        table += [(r'^%s\|nano::ml::params_t\|\(nano::%s_t\)\|' % (m, m), f'mlparams_{m}_obj!'),
+                  (r'^%s\|nano::ml::params_t\|\(%s\)\|(xvalue|prvalue)$' % (m, UPT % m), f'mlparams_{m}_move!'),
+                  (r'^%s\|nano::ml::params_t\|\(%s\)\|lvalue$' % (m, UPT % m), f'mlparams_{m}_ptr!'),
+                  (r'^%s\|nano::ml::params_t\|\(std::basic_string<char>\)\|' % m, f'mlparams_{m}_id!')]
+    types = [(r'^std::unique_ptr<nano::(tuner_t|solver_t|splitter_t)|^(nano::)?r(tuner|solver|splitter)_t$', 'struct nv_obj*'),
+             (r'^nano::(tuner_t|solver_t|splitter_t)$', 'struct nv_obj'), (r'^nano::ml::params_t$', 'struct nv_mlparams'),
+             (r'^nano::logger_t$', 'struct nv_logger')] + CLONE_TYPES
+    calls = CLONE_CALLS + [(r'^ctor\|nano::logger_t\|void \(const nano::logger_t &\)', '{0}'),      # logger copy: an opaque value
+                           (r'^operator=\|nano::logger_t &\(const nano::logger_t &\)', '({0} = {1})')]
+    members = [(r'^clone\|nano::clonable_t<nano::(tuner_t|solver_t|splitter_t)>|^clone\|nano::(tuner_t|solver_t|splitter_t)\b', 'nv_obj_clone')] + CLONE_MEMBERS
+    c = dict(types=types, calls=calls, members=members, hooks=[hooks.member_overload_hook(table)], self_struct='struct nv_mlparams', uf_float=False)
+    P = 'nano::ml::params_t::'
+    f = {'copy': Fn('mlparams_copy', S, 'params_t', flt=P + 'params_t', select=lambda d: astload.param_types(d) == ['const nano::ml::params_t &'], **c),
+         'assign': Fn('mlparams_assign', S, 'operator=', flt=P + 'operator=', select=lambda d: astload.param_types(d) == ['const nano::ml::params_t &'], **c)}
+    for m in ('tuner', 'solver', 'splitter'):
+        one = lambda pred: (lambda d: len(astload.param_types(d)) == 1 and pred(astload.param_types(d)[0]))
+        f[m + '_obj'] = Fn(f'mlparams_{m}_obj', S, m, flt=P + m, select=one(lambda t, m=m: t == f'const nano::{m}_t &'), **c)
+        f[m + '_move'] = Fn(f'mlparams_{m}_move', S, m, flt=P + m, select=one(lambda t, m=m: t.endswith('&&')), **c)
+        f[m + '_ptr'] = Fn(f'mlparams_{m}_ptr', S, m, flt=P + m, select=one(lambda t, m=m: t.startswith('const') and f'r{m}_t' in t), **c)
+        f[m + '_id'] = Fn(f'mlparams_{m}_id', S, m, flt=P + m, select=one(lambda t: 'string_t' in t), **c)
+    return f
+
+
+def functional_fns():
+    S = 'src/function/constraint.cpp'
+    types = [(r'^nano::constraint::functional_t$', 'struct nv_functional')] + CLONE_TYPES
+    c = dict(types=types, calls=CLONE_CALLS, members=CLONE_MEMBERS, self_struct='struct nv_functional', uf_float=False)
+    P = 'nano::constraint::functional_t::'
+    pt = lambda want: (lambda d: astload.param_types(d) == [want])
+    return {'from_function': Fn('functional_from_function', S, 'functional_t', flt=P + 'functional_t', select=pt('const nano::function_t &'), **c),
+            'from_owner': Fn('functional_from_owner', S, 'functional_t', flt=P + 'functional_t', select=pt('nano::rfunction_t &&'), **c),
+            'copy': Fn('functional_copy', S, 'functional_t', flt=P + 'functional_t', select=pt('const nano::constraint::functional_t &'), **c),
+            'assign': Fn('functional_assign', S, 'operator=', flt=P + 'operator=', select=pt('const nano::constraint::functional_t &'), **c)}
+
+
+def gboost_fns():
+    WV = r'std::vector<std::unique_ptr<nano::wlearner_t'
+    IT = r'__normal_iterator<(const )?std::unique_ptr<nano::wlearner_t'
+    types = [(r'^(nano::)?rwlearners_t$|^' + WV + r'.*>$', 'struct nv_objs'), (r'__normal_iterator<\s*std::unique_ptr<nano::wlearner_t', 'struct nv_obj*'),
+             (r'^std::unique_ptr<nano::wlearner_t|^(nano::)?rwlearner_t$', 'struct nv_obj'),      # containment model: the owner IS the object
+             (r'^nano::gboost_model_t$', 'struct nv_gboost'), (r'^nano::gboost::result_t$', 'struct nv_gbresult'),
+             (r'^nano::learner_t$', 'struct nv_base'),
+             (r'^nano::(tensor1d_t|tensor2d_t|indices_t)$|^nano::tensor_t<|^const nano::(tensor2d_t|indices_t) \*$', 'struct nv_val')] + CLONE_TYPES
+    calls = [(r'^operator!=\|.*' + IT, '({0} != {1})'), (r'^operator\+\+\|.*' + IT, '(++{0})'), (r'^operator\*\|.*' + IT, '(*{0})'),
+             (r'^operator->\|.*unique_ptr<nano::wlearner_t', '(&{0})'),
+             (r'^clone\|nano::rwlearners_t \(const nano::rwlearners_t &\)', 'wlearners_clone'),
+             (r'^operator=\|.*std::vector<std::unique_ptr<nano::wlearner_t', '({0} = {1})'),
+             (r'^operator=\|.*(tensor_t<|tensor[12]d_t|learner_t)', '({0} = {1})'),
+             (r'^ctor\|nano::learner_t\|void \(const nano::learner_t &\)', '(self->m_learner = {0}.m_learner)')] + CLONE_CALLS
+    members = [(r'^begin\|' + WV, '{*self}.p'), (r'^end\|' + WV, '({*self}.p + {*self}.n)'), (r'^size\|' + WV, '((uint64_t){*self}.n)'),
+               (r'^reserve\|' + WV, 'nv_objs_reserve({self}, {0})'), (r'^emplace_back\|' + WV, 'nv_objs_emplace_back({self}, {0})'),
+               (r'^clone\|nano::clonable_t<nano::wlearner_t>|^clone\|nano::wlearner_t\b', 'nv_obj_clone_val'),
+               (r'^operator=\|nano::learner_t', '(self->m_learner = {0}.m_learner)')] + CLONE_MEMBERS
+    c = dict(types=types, calls=calls, members=members, uf_float=False)
+    G, R = 'src/gboost/model.cpp', 'src/gboost/result.cpp'
+    pt = lambda want: (lambda d: astload.param_types(d) == [want])
+    return {'clone': Fn('wlearners_clone', 'src/wlearner/util.cpp', 'clone', flt='nano::wlearner::clone', **c),
+            'gcopy': Fn('gboost_copy', G, 'gboost_model_t', flt='nano::gboost_model_t::gboost_model_t', select=pt('const nano::gboost_model_t &'), self_struct='struct nv_gboost', **c),
+            'gassign': Fn('gboost_assign', G, 'operator=', flt='nano::gboost_model_t::operator=', select=pt('const nano::gboost_model_t &'), self_struct='struct nv_gboost', **c),
+            'gproto': Fn('gboost_prototypes_copy', G, 'prototypes', flt='nano::gboost_model_t::prototypes', select=pt('const nano::rwlearners_t &'), self_struct='struct nv_gboost', **c),
+            'rcopy': Fn('gbresult_copy', R, 'result_t', flt='nano::gboost::result_t::result_t', select=pt('const nano::gboost::result_t &'), self_struct='struct nv_gbresult', **c),
+            'rassign': Fn('gbresult_assign', R, 'operator=', flt='nano::gboost::result_t::operator=', select=pt('const nano::gboost::result_t &'), self_struct='struct nv_gbresult', **c)}
+
+
+def clone_targets():
+    out = []
+    # solver_t: the copy constructor with every accessor / setter it may go through inlined (real code, no contract in between)
+    f = solver_fns()
+    ENUMS = [('src/solver.cpp', 'nano::solver_type')]     # default member initialisers name the enumerators
+    out.append(Target('solver_copy', [f[k] for k in ('copy', 'get0', 'getk', 'gett', 'id0', 'idk', 'obj0', 'objk')], HC, enums=ENUMS))
+    for k in ('id0', 'idk', 'obj0', 'objk'):
+        f = solver_fns()
+        out.append(Target(f[k].cname, [f[k]] + [f[x] for x in ('get0', 'getk', 'gett', 'id0', 'idk', 'obj0', 'objk') if x != k], HC, enums=ENUMS))
+    # ml::params_t: copy constructor, copy assignment, the twelve setters (sibling setters a function goes through are inlined)
+    keys = ['copy', 'assign'] + [f'{m}_{k}' for m in ('tuner', 'solver', 'splitter') for k in ('obj', 'move', 'ptr', 'id')]
+    for k in keys:
+        f = mlparams_fns()
+        out.append(Target(f[k].cname, [f[k]] + [f[x] for x in keys if x != k], HC))
+    # functional_t: three constructors and the copy assignment
+    for k in ('from_function', 'from_owner', 'copy', 'assign'):
+        f = functional_fns()
+        out.append(Target(f[k].cname, [f[k]], HC))
+    # weak learners: the element-wise vector clone (loop contract), then the owners with the vector clone replaced by its contract
+    out.append(Target('wlearners_clone', [gboost_fns()['clone']], HC))
+    for k in ('gcopy', 'gassign', 'gproto', 'rcopy', 'rassign'):
+        f = gboost_fns()
+        out.append(Target(f[k].cname, [f[k], f['clone']], HC, replace=['wlearners_clone']))
     return out
